@@ -15,6 +15,9 @@ func VH_stree_Step() {
 		max = vMaxFor(n, beta) // the high-water mark only matters to Remove
 	}
 	t := vMkTree(root, beta, n, max)
+	if vCase("cmp") == 1 {
+		t.compare = vCmpKTWide
+	}
 	if op == 2 {
 		// note two-child removals with a deep successor for the cover report
 		var nodes []*node[vKT]
@@ -39,6 +42,9 @@ func VH_stree_Read() {
 	var ref []vKT
 	vFill(root, &ref)
 	t := vMkTree(root, 500, n, n)
+	if vCase("cmp") == 1 {
+		t.compare = vCmpKTWide
+	}
 	vCover("read")
 	vCheckTree(t, ref, "read")
 	vProbe(t, ref, "read")
